@@ -60,8 +60,8 @@ theorem bind2 {s s' : St} {a b : Act} (h : (step s a).bind (fun s1 => step s1 b)
   | none => rw [h1] at h; cases h
   | some s1 => rw [h1] at h; exact Or.inr (Or.inr ⟨a, b, s1, h1, h⟩)
 
-theorem astep_steps (s s' : St) (e : Ev) (h : astep s e = some s') : Steps s s' := by
-  unfold astep at h
+theorem astepCore_steps (s s' : St) (e : Ev) (h : astepCore s e = some s') : Steps s s' := by
+  unfold astepCore at h
   split at h
   · -- worker
     unfold aWorker at h
@@ -104,6 +104,16 @@ theorem astep_steps (s s' : St) (e : Ev) (h : astep s e = some s') : Steps s s' 
       | exact Or.inr (Or.inl ⟨_, guardEq_some h⟩)
       | exact Or.inr (Or.inl ⟨_, h⟩)
       | cases h
+
+theorem astep_steps (s s' : St) (e : Ev) (h : astep s e = some s') : Steps s s' := by
+  unfold astep at h
+  split at h
+  · rename_i s1 hc
+    cases h
+    exact astepCore_steps s _ e hc
+  · split at h
+    · cases h; exact Or.inl rfl
+    · cases h
 
 /-- every state the refinement check reaches while accepting the implementation's events satisfies the invariant -/
 theorem inv_astep (s s' : St) (e : Ev) (hI : Inv s) (h : astep s e = some s') : Inv s' := steps_inv hI (astep_steps s s' e h)
